@@ -304,3 +304,21 @@ Proof.
   apply safe_obind; [now apply dec_section_safe|]. intros [[ns p3] eof3] _.
   apply safe_obind; [now apply dec_section_safe|]. intros [[ad p4] eof4] _. exact I.
 Qed.
+
+(** a pointer whose target is already in the visited set ends the loop with ValueError *)
+Lemma revisit_refused msg s l b2 :
+  read1 msg (n_pos s) = Done (l, n_pos s + 1) -> l <> 0 -> N.shiftr l 6 = 3 ->
+  read1 msg (n_pos s + 1) = Done (b2, n_pos s + 2) ->
+  In (N.lor (N.shiftl (N.land l 63) 8) b2) (n_vis s) ->
+  name_step msg s = inr (Raise ValueError).
+Proof.
+  intros R1 NZ SH R2 I. unfold name_step. rewrite R1.
+  replace (l =? 0) with false by lia. rewrite SH. cbn [N.eqb Pos.eqb]. rewrite R2.
+  replace (existsb _ _) with true; [reflexivity|].
+  symmetry. apply existsb_exists. eexists. split; [exact I|apply N.eqb_refl].
+Qed.
+
+Example cycle_example :
+  let msg := [0;0;0;0;0;1;0;0;0;0;0;0; 192;14; 192;12; 0;1;0;1] in
+  bytes_ok msg /\ dec_message msg = Raise ValueError.
+Proof. split; [repeat constructor|vm_compute; reflexivity]. Qed.
